@@ -145,6 +145,19 @@ def _patch(blob, fmt, p):
             bb[i + 13:i + 17] = struct.pack(">I", zlib.crc32(b"pHYs" + data) & 0xFFFFFFFF)
     elif p == "trunc":
         bb = bb[: max(4, len(bb) // 3)]
+    if p.startswith("text:"):
+        # a comment of fixed length: files that differ only here have identical byte length
+        t = p[5:].encode("ascii")
+        if fmt == "PNG":
+            import zlib
+            data = b"Comment\0" + t
+            chunk = struct.pack(">I", len(data)) + b"tEXt" + data + struct.pack(">I", zlib.crc32(b"tEXt" + data) & 0xFFFFFFFF)
+            bb = bb[:33] + chunk + bb[33:]          # right after IHDR
+        elif fmt == "JPEG":
+            bb = bb[:2] + b"\xff\xfe" + struct.pack(">H", len(t) + 2) + t + bb[2:]   # COM segment after SOI
+        elif fmt == "GIF":
+            pos = 13 + (3 * 2 ** ((bb[10] & 7) + 1) if bb[10] & 0x80 else 0)
+            bb = bb[:pos] + b"\x21\xfe" + bytes([len(t)]) + t + b"\x00" + bb[pos:]  # comment extension
     return bytes(bb)
 
 
@@ -556,6 +569,47 @@ def gen_bad_spec(rng, seed):
     return s
 
 
+def make_twin(specs, rng):
+    """Add a second image whose file has exactly the byte length of an existing one but other
+    bytes (uncompressed BMP/TIFF: other pixel values; PNG/JPEG/GIF: another comment of the same
+    length).  Returns (index of the original, index of the twin) or None."""
+    cands = [i for i, sp in enumerate(specs)
+             if (sp["fmt"] in ("BMP", "TIFF") and sp.get("patch") != "trunc")
+             or (sp["fmt"] in ("PNG", "JPEG", "GIF") and not sp.get("patch"))]
+    if not cands:
+        return None
+    i = rng.choice(cands)
+    t = dict(specs[i])
+    if t["fmt"] in ("BMP", "TIFF"):
+        t["seed"] = specs[i]["seed"] + 7919
+    else:
+        specs[i]["patch"] = "text:" + "".join(rng.choice("ABCDEFGH") for _ in range(8))
+        t["patch"] = "text:" + "".join(rng.choice("ijklmnop") for _ in range(8))
+    specs.append(t)
+    return i, len(specs) - 1
+
+
+def twin_ops(rng, pair, nslides, ph_free):
+    """the original and its twin added one after the other from the same working file"""
+    out = []
+    via = rng.choice(["path", "path", "misnamed"])
+    order = list(pair) + [pair[0]]
+    if rng.random() < 0.3:
+        order = [pair[1], pair[0], pair[1]]
+    for img in order:
+        s = rng.randrange(nslides)
+        use = rng.choice(["P", "P", "P", "M", "O", "H"])
+        if use == "H":
+            free = [i for i, f in enumerate(ph_free) if f]
+            if free:
+                s = rng.choice(free)
+                ph_free[s] = False
+            else:
+                use = "P"
+        out.append(["i", s, img, use, via, None, None])
+    return out
+
+
 def gen_history(rng, tier, hid):
     """A history: image specs + operations.  ops:
        ["a", layout]                      add slide (layout 6 blank / 8 picture placeholder)
@@ -573,6 +627,7 @@ def gen_history(rng, tier, hid):
             s2["dpi"] = None
         s2["patch"] = None
         specs.append(s2)
+    pair = make_twin(specs, rng) if rng.random() < 0.6 else None
     ops = []
     slides = []  # layout per slide; placeholder free?
     ph_free = []
@@ -610,13 +665,17 @@ def gen_history(rng, tier, hid):
                 if rng.random() < 0.4:
                     cx = cy = None
                 ops.append(["i", s, img, "P", via, cx, cy])
+    if pair:
+        ops += twin_ops(rng, pair, len(slides), ph_free)
     if rng.random() < 0.6:
         ops.append(["r"])
         # after the re-open add something already stored, and something new
         s = rng.randrange(len(slides))
         ops.append(["i", s, 0, "P", "stream", None, None])
         ops.append(["i", s, len(specs) - 1, "P", "path", None, 914400])
-    return {"specs": specs, "ops": ops}
+        if pair and rng.random() < 0.5:
+            ops += twin_ops(rng, pair, len(slides), ph_free)
+    return {"specs": specs, "ops": ops, "slot": hid % 3}
 
 
 def corpus_decks():
@@ -645,6 +704,7 @@ def gen_corpus_history(rng, deck, nslides, nparts, hid):
     specs = [{"fmt": "PART", "index": j} for j in range(nparts)]
     specs.append(gen_image_spec(rng, 900000 + hid * 10))
     specs.append(gen_image_spec(rng, 900001 + hid * 10))
+    pair = make_twin(specs, rng)
     ops = []
     ns = nslides
     if ns == 0 or rng.random() < 0.3:
@@ -657,22 +717,25 @@ def gen_corpus_history(rng, deck, nslides, nparts, hid):
                         rng.choice(["path", "stream", "misnamed"]), None, None])
             if ops[-1][3] == "P":
                 ops[-1][5], ops[-1][6] = rng.choice(dims), rng.choice(dims)
+        if pair:
+            ops += twin_ops(rng, pair, ns, [])
         if rnd == 0:
             ops.append(["r"])
             if rng.random() < 0.5:
                 ops.append(["a", 6])
                 ns += 1
-    return {"deck": deck, "specs": specs, "ops": ops}
+    return {"deck": deck, "specs": specs, "ops": ops, "slot": hid % 3}
 
 
 class Deck:
     """Runs a history on python-pptx and records what the property talks about."""
 
-    def __init__(self, hist, tmp):
+    def __init__(self, hist, tmp, pool=None):
         from pptx import Presentation
 
         self.hist = hist
         self.tmp = tmp
+        self.pool = pool or tmp
         self.prs = Presentation(os.path.join(REPO, hist["deck"])) if hist.get("deck") else Presentation()
         pkg = self.prs.part.package
         self.init_image_parts = list(pkg._image_parts)
@@ -720,11 +783,15 @@ class Deck:
         spec = self.hist["specs"][img]
         if via == "stream":
             return io.BytesIO(blob)
+        # A small pool of working files, shared by all histories of the process and overwritten
+        # before every use: the same path carries different images over time, often of the very
+        # same byte length (twins), as when frames are written to a reused working file.
         self.nfile += 1
+        slot = self.hist.get("slot", 0)
         ext = EXT_OF_FMT.get(spec["fmt"], "bin")
         if via == "misnamed":
-            ext = WRONG_EXT[(self.nfile + img) % len(WRONG_EXT)]
-        path = os.path.join(self.tmp, "f%d%s" % (self.nfile, ("." + ext) if ext else ""))
+            ext = WRONG_EXT[(slot + sorted(EXT_OF_FMT).index(spec["fmt"]) if spec["fmt"] in EXT_OF_FMT else slot) % len(WRONG_EXT)]
+        path = os.path.join(self.pool, "w%d%s" % (slot, ("." + ext) if ext else ""))
         with open(path, "wb") as f:
             f.write(blob)
         return path
@@ -987,8 +1054,8 @@ def oracle_history(ck, hist, deck, outs):
                 ck.violation("aspect", "height %d given for a %r px %s (native %s x %s): width %d" % (b2, size, kind, sorted(natx), sorted(naty), cx), info)
 
 
-def run_one_history(hist, tmp):
-    deck = Deck(hist, tmp)
+def run_one_history(hist, tmp, pool=None):
+    deck = Deck(hist, tmp, pool)
     initial = deck.initial_parts()
     outs = [deck.run_op(op, i) for i, op in enumerate(hist["ops"])]
     views = {rec["opidx"]: rec["view"] for rec in deck.records if rec["use"] == "H" and "view" in rec}
@@ -1071,7 +1138,7 @@ def run(ck, tier, rng):
         for i, hist in enumerate(hists):
             sub = os.path.join(tmp, "h%d" % i)
             os.mkdir(sub)
-            deck, initial, outs, views = run_one_history(hist, sub)
+            deck, initial, outs, views = run_one_history(hist, sub, pool)
             klass = ("corpus:" if hist.get("deck") else "hist:") + "+".join(sorted({op[3] if op[0] == "i" else op[0] for op in hist["ops"]}))
             ck.count(repr(hist), nontrivial_history(hist), klass)
             for rec in deck.records:
